@@ -3,6 +3,7 @@ package rules
 import (
 	"go/ast"
 	"go/types"
+	"strings"
 
 	"mlverif/core"
 )
@@ -322,5 +323,100 @@ func inspectFn(fn *core.Func, visit func(ast.Node) bool) {
 	ast.Inspect(fn.Decl.Body, visit)
 	for _, h := range helpersOf(fn) {
 		ast.Inspect(h.Decl.Body, visit)
+	}
+}
+
+// installPinnedNames fills Prog.Rename: every receiver, parameter and named
+// result of a function of the reviewed tree is spelled, in canonical strings,
+// as it was when the rules were reviewed (matched by position; skipped when
+// the signature's shape changed).
+func installPinnedNames(p *core.Prog) {
+	if p.Rename != nil {
+		return
+	}
+	p.Rename = map[types.Object]string{}
+	for name, fn := range p.Funcs {
+		pinned := pinnedParams[name]
+		if len(pinned) == 0 {
+			continue
+		}
+		var cur []*ast.Ident
+		var kinds []string
+		if fn.Decl.Recv != nil && len(fn.Decl.Recv.List) == 1 && len(fn.Decl.Recv.List[0].Names) == 1 {
+			cur = append(cur, fn.Decl.Recv.List[0].Names[0])
+			kinds = append(kinds, "recv:")
+		}
+		for _, fl := range fn.Decl.Type.Params.List {
+			if len(fl.Names) == 0 {
+				cur = append(cur, nil)
+				kinds = append(kinds, "")
+			}
+			for _, n := range fl.Names {
+				cur = append(cur, n)
+				kinds = append(kinds, "")
+			}
+		}
+		if fn.Decl.Type.Results != nil {
+			for _, fl := range fn.Decl.Type.Results.List {
+				for _, n := range fl.Names {
+					cur = append(cur, n)
+					kinds = append(kinds, "res:")
+				}
+			}
+		}
+		if len(cur) != len(pinned) {
+			continue
+		}
+		okShape := true
+		for i := range cur {
+			pk := ""
+			if j := strings.Index(pinned[i], ":"); j > 0 {
+				pk = pinned[i][:j+1]
+			}
+			if pk != kinds[i] {
+				okShape = false
+			}
+		}
+		if !okShape {
+			continue
+		}
+		for i, id := range cur {
+			want := pinned[i]
+			if j := strings.Index(want, ":"); j > 0 {
+				want = want[j+1:]
+			}
+			if id == nil || id.Name == "_" || want == "_" || id.Name == want {
+				continue
+			}
+			if o := p.Info.Defs[id]; o != nil {
+				p.Rename[o] = want
+			}
+		}
+	}
+	// locals: only when the function declares exactly the reviewed sequence of types
+	for name, fn := range p.Funcs {
+		pl := pinnedLocals[name]
+		if len(pl) == 0 {
+			continue
+		}
+		cur := core.LocalsOf(p, fn)
+		if len(cur) != len(pl) {
+			continue
+		}
+		same := true
+		for i, o := range cur {
+			if core.TypeStr(p, o.Type()) != pl[i][0] {
+				same = false
+				break
+			}
+		}
+		if !same {
+			continue
+		}
+		for i, o := range cur {
+			if o.Name() != pl[i][1] {
+				p.Rename[o] = pl[i][1]
+			}
+		}
 	}
 }
